@@ -1,6 +1,7 @@
 import Shuttle.Drive.Codec
 import Shuttle.Drive.C05
 import Shuttle.Model.Inject
+import Shuttle.Model.Runtime
 /-! Wire format of the program language and the `run` requests. -/
 namespace Shuttle.Drive.LangD
 open Shuttle Shuttle.Drive Shuttle.Lang
@@ -133,6 +134,15 @@ def handle : Sexp → String
       | .error .fuel => "fuel"
       | .error .err => "err"
     | _, _, _ => "bad-input"
+  -- `(ana (fns…) name)`: the quantum-runtime analysis model
+  | .list [.atom "ana", .list fns, .atom name] =>
+    match fns.mapM fn? with
+    | some fns =>
+      match hasQuantumRuntime fns FUEL name with
+      | .ok true => "yes"
+      | .ok false => "no"
+      | .error _ => "refused"
+    | none => "bad-input"
   | _ => "bad-op"
 
 end Shuttle.Drive.LangD
